@@ -389,7 +389,6 @@ FINDING_ENTRIES = [
     ("retattr.align-call", "declare i8* @f()\n\ndefine void @g() {\n\t%r = call align 8 i8* @f()\n\tret void\n}\n", ["%r = call align 8 i8* @f()"]),
     ("global.metadata-before-align", "@g = global i32 0, !foo !0, align 4\n\n!0 = !{}\n", ["@g = global i32 0, align 4, !foo !0"]),
     ("diderivedtype.dwarf-address-space-zero", '@g = global i32 0, !dbg !0\n!llvm.module.flags = !{!5}\n!llvm.dbg.cu = !{!3}\n!0 = !DIGlobalVariableExpression(var: !1, expr: !DIExpression())\n!1 = distinct !DIGlobalVariable(name: "g", scope: !3, file: !4, line: 1, type: !7, isLocal: false, isDefinition: true)\n!2 = !DIBasicType(name: "int", size: 32, encoding: DW_ATE_signed)\n!3 = distinct !DICompileUnit(language: DW_LANG_C99, file: !4, producer: "x", isOptimized: false, runtimeVersion: 0, emissionKind: FullDebug, globals: !6)\n!4 = !DIFile(filename: "a.c", directory: "/")\n!5 = !{i32 2, !"Debug Info Version", i32 3}\n!6 = !{!0}\n!7 = !DIDerivedType(tag: DW_TAG_pointer_type, baseType: !2, size: 64, dwarfAddressSpace: 0)\n', ['dwarfAddressSpace: 0']),
-    ("typedef.alias-of-pointer-type", "%b = type i8*\n%a = type %b\n\n@g = global %a null\n", ["@g = global"]),
     ("freeze.metadata-attachment", "define i32 @f(i32 %a) {\n\t%r = freeze i32 %a, !x !0\n\tret i32 %r\n}\n\n!0 = !{}\n", ["%r = freeze i32 %a, !x !0"]),
 ]
 
@@ -884,6 +883,11 @@ def round21_entries():
                 ["tail call void @reg(i32 (i8*, ...)* @printf)", "%r = call i32 (i8*, ...) @printf(i8* null, i32 (i8*, ...)* @printf)"]))
     out.append(("invoke.arg-variadic-funcptr", P + "declare i32 @pers(...)\n\ndefine void @f() personality i32 (...)* @pers {\n\tinvoke void @reg(i32 (i8*, ...)* @printf)\n\t\tto label %ok unwind label %bad\n\nok:\n\tret void\n\nbad:\n\t%lp = landingpad { i8*, i32 }\n\t\tcleanup\n\tret void\n}\n",
                 ["invoke void @reg(i32 (i8*, ...)* @printf)"]))
+    # (round 22) a type definition whose body is a NAMED type is another name of that type: accepted, printed once under the target's name, stable
+    out.append(("typedef.alias-of-pointer-type", "%b = type i8*\n%a = type %b\n\n@g = global %a null\n", ["%b = type i8*", "@g = global %b null"]))
+    out.append(("typedef.alias-of-struct-forward", "%a = type %b\n%b = type { i32 }\n\n@g = global %a zeroinitializer\n", ["%b = type { i32 }", "@g = global %b zeroinitializer"]))
+    out.append(("typedef.alias-chain", "%z = type %y\n%y = type %x\n%x = type { %z*, i8 }\n\n@g = global %z zeroinitializer\n", ["%x = type { %x*, i8 }", "@g = global %x zeroinitializer"]))
+    out.append(("typedef.alias-of-int", "%a = type %b\n%b = type i32\n\n@g = global %a 7\n", ["%b = type i32", "@g = global %b 7"]))
     return out
 
 def bare_digit_identifiers():
